@@ -126,8 +126,14 @@ impl HotReloadingData {
         self.deps.insert_asset(key, new_deps, typ);
     }
 
+    pub fn remove_asset(&mut self, key: OwnedKey) {
+        self.deps.remove_asset(key);
+    }
+
     pub fn clear_local_cache(&mut self) {
         self.to_reload.clear();
+        // Nothing is cached anymore, so there is nothing left to reload
+        self.deps = DepsGraph::new();
     }
 }
 
